@@ -188,6 +188,23 @@ METHODS = [
 ]
 
 
+def flush_shape(repo):
+    """is `cache.immediate` still saved, forced to True and restored in a `finally` (not an `except`) of SessionCache.flush"""
+    tree = ast.parse(open(os.path.join(repo, 'pony/orm/core.py')).read())
+    f = find_method(tree, 'SessionCache', 'flush')
+    texts = [ast.unparse(st) for st in f.body]
+    try:
+        i, j = texts.index('prev_immediate = cache.immediate'), texts.index('cache.immediate = True')
+    except ValueError:
+        return False, f.lineno
+    tries = [(k, st) for k, st in enumerate(f.body) if isinstance(st, ast.Try)]
+    if len(tries) != 1 or not (i < j < tries[0][0]): return False, f.lineno
+    t = tries[0][1]
+    ok = (not t.handlers and not t.orelse and len(t.finalbody) == 1 and
+          ast.unparse(t.finalbody[0]) == 'if not cache.in_transaction:\n    cache.immediate = prev_immediate')
+    return ok, f.lineno
+
+
 def translate(repo):
     trees = {}
     lines = ['/- GENERATED by harness/gen_c19.py from the current source of /repo -- do not edit. -/',
@@ -205,6 +222,11 @@ def translate(repo):
         lines += ['/-- `%s.%s` (%s:%d) -/' % (cls, meth, file, f.lineno), 'def %s : Stmt :=' % lean, '  ' + term, '']
         info['%s.%s' % (cls, meth)] = {'file': file, 'line': f.lineno, 'statements': sum(isinstance(n, ast.stmt) for n in ast.walk(f)) - 1,
                                        'wrapped': bool(decos)}
+    ok, line = flush_shape(repo)
+    lines += ['/-- `SessionCache.flush` (pony/orm/core.py:%s): `prev_immediate = cache.immediate; cache.immediate = True; try: ... finally:' % line,
+              '    if not cache.in_transaction: cache.immediate = prev_immediate` -- the restore runs on EVERY exit of the try block -/',
+              'def flushRestoresImmediateInFinally : Bool := %s' % ('true' if ok else 'false'), '']
+    info['SessionCache.flush'] = {'file': 'pony/orm/core.py', 'line': line, 'restores_immediate_in_finally': ok}
     lines += ['end PonyVerif.Gen.ConnLockSrc', '']
     return '\n'.join(lines), info
 
